@@ -119,8 +119,8 @@ PROPS = {
         bounded=["bounded.c01_delivery"],
     ),
     "C17": dict(
-        level="exploration",
-        specs=[],
-        bounded=["bounded.c17_purity"],
+        level="proof",
+        specs=["specs.c17_purity"],
+        bounded=["bounded.c17_purity", "bounded.frames_selftest"],
     ),
 }
